@@ -169,7 +169,7 @@ func (m *multiDeleteExecutor) buildBeforeImageSQL() (string, []driver.NamedValue
 		}
 
 		var whereBuffer bytes.Buffer
-		if err = deleteParser.Where.Restore(format.NewRestoreCtx(format.RestoreKeyWordUppercase, &whereBuffer)); err != nil {
+		if err = restoreUnqualified(deleteParser.Where, format.NewRestoreCtx(format.RestoreKeyWordUppercase, &whereBuffer)); err != nil {
 			return "", nil, err
 		}
 
